@@ -247,6 +247,11 @@ def search(ctx, broken, disagreements):
     return found, {'evaluations': n}
 
 def matches_known(v, entry):
+    if entry.get('signature', {}).get('pattern') == 'userspace_percent_in_nested_viewport':
+        doc = v['input'].get('doc', '')
+        nested = len(re.findall(r'<svg\b', doc)) >= 2
+        pct = any('userSpaceOnUse' in g and re.search(r'\b(x1|x2|y1|y2|cx|cy|r|fx|fy)="[^"]*%"', g) for g in re.findall(r'<(?:linear|radial)Gradient\b[^>]*>', doc))
+        return nested and bool(pct)
     return False
 
 def replay(ctx, w):
